@@ -546,17 +546,19 @@ func (c *Client) doRountrip(ctx context.Context, msg *kmip.RequestMessage) (*kmi
 //   - *kmip.ResponseMessage - The KMIP response message received.
 //   - error - Any error encountered during processing or sending the request.
 func (c *Client) Roundtrip(ctx context.Context, msg *kmip.RequestMessage) (*kmip.ResponseMessage, error) {
-	i := 0
-	var next func(ctx context.Context, req *kmip.RequestMessage) (*kmip.ResponseMessage, error)
-	next = func(ctx context.Context, req *kmip.RequestMessage) (*kmip.ResponseMessage, error) {
-		if i < len(c.middlewares) {
-			mdl := c.middlewares[i]
-			i++
-			return mdl(next, ctx, req)
+	// nextAt returns the continuation running the chain from middleware i onward.
+	// The position is bound to each continuation (not shared between them), so that
+	// a middleware calling next several times (retry) runs all inner stages each time.
+	var nextAt func(i int) Next
+	nextAt = func(i int) Next {
+		return func(ctx context.Context, req *kmip.RequestMessage) (*kmip.ResponseMessage, error) {
+			if i < len(c.middlewares) {
+				return c.middlewares[i](nextAt(i+1), ctx, req)
+			}
+			return c.doRountrip(ctx, req)
 		}
-		return c.doRountrip(ctx, req)
 	}
-	return next(ctx, msg)
+	return nextAt(0)(ctx, msg)
 }
 
 // negotiateVersion negotiates the KMIP protocol version to be used by the client.
